@@ -75,3 +75,14 @@ package cmds
 // The identity is the plain concatenation of the non-key arguments, so argument boundaries are lost: stated as a
 // lemma over the specification (string theory), it FAILS (recorded as a known finding in /verif/known_findings.txt).
 //@ lemma [C08 identity-is-injective] smtfile ../../../verif/spec/c08_injective.smt2
+
+// MGET / JSON.MGET elements are cached under the identity of the corresponding singular GET / JSON.GET command
+//@ func MGetCacheKey
+//@   requires c.cs != nil && 0 <= i && i + 1 < len(c.cs.s)
+//@   safety C08
+//@   ensures [C08 key-of-ith-element] result == c.cs.s[i+1]
+//@ func MGetCacheCmd
+//@   requires c.cs != nil && len(c.cs.s) >= 1 && len(c.cs.s[0]) >= 1
+//@   safety C08
+//@   ensures [C08 same-identity-as-GET] c.cs.s[0][0] != 'J' ==> result == "GET"
+//@   ensures [C08 same-identity-as-JSON-GET] c.cs.s[0][0] == 'J' ==> result == "JSON.GET" + c.cs.s[len(c.cs.s)-1]
